@@ -196,6 +196,27 @@ theorem C18_restart_same {V : Type} [PyVal V] (c : ECfg V) (f : TM.Node → Bool
     (∀ x, den (seeded c f) x = den c x) ∧ (∀ n ∈ (seeded c f).nodes, f n = false) :=
   VM.C18_restart_same c f hwf hf hfsome
 
+/-- C12 (values) / C19: restricting a table to a dependency-closed set of nodes (a target with its
+    ancestors; what composed outputs need) does not change the value of any kept node. -/
+theorem C12_restriction_keeps_values {V : Type} [PyVal V] (c : ECfg V) (S : TM.Node → Bool)
+    (hcl : isClosedB c S = true) (x : TM.Node) (hx : x ∉ c.nodes ∨ S x = true) :
+    den (restrict c S) x = den c x := VM.den_restrict c S hcl x hx
+
+/-- C19: the composed table returns for every output what the original pipeline computes if the input
+    nodes had produced the supplied values.  (`hcl` is decidable and checked by the driver on every
+    composed table; proving it once and for all for `needed` is left: PARTIAL in that sense.) -/
+theorem C19_compose_computes_outputs_partial {V : Type} [PyVal V] (c : ECfg V) (ins outs : List TM.Node) (vals : List V)
+    (hcl : isClosedB (withInputs c ins vals) (fun n => (needed c ins outs).contains n) = true)
+    (o : TM.Node) (ho : o ∈ outs) :
+    den (composeCfg c ins outs vals) o = den (withInputs c ins vals) o :=
+  VM.C19_compose_computes_outputs c ins outs vals hcl o ho
+
+/-- C17 (b): any interleaving of `k` executions (concurrent awaits in one loop), each on its private
+    copy of the results: every one that returns computed the denotation of its own table/arguments. -/
+theorem C17b_concurrent_awaits_isolated {V : Type} [PyVal V] (es : Nat → Exec V) {tr σ} (h : PRun es tr σ) (i : Nat)
+    (hwf : WF (es i).c) (hd : (σ i).st.pc = .done) : ∀ n, (σ i).ρ n = den (es i).c n :=
+  VM.C17b_concurrent_awaits_isolated es h i hwf hd
+
 /-! ## Threads -/
 open TH
 
